@@ -433,9 +433,19 @@ func (a *Act) loopEnv0(li *loopInfo, st *State, mode string, from *ssa.BasicBloc
 				}
 			}
 		}
-		if name == "$range" {
-			// the slice a range-over-slice loop iterates over
-			for _, ins := range li.head.Instrs {
+		if name == "$range" || (strings.HasPrefix(name, "$range") && len(name) > 6) {
+			// the slice a range-over-slice loop iterates over ($rangeN: that of the enclosing loop N)
+			head := li.head
+			if name != "$range" {
+				n := 0
+				fmt.Sscanf(name[6:], "%d", &n)
+				for _, l2 := range a.loops {
+					if l2.ord == n {
+						head = l2.head
+					}
+				}
+			}
+			for _, ins := range head.Instrs {
 				if bo, ok := ins.(*ssa.BinOp); ok && bo.Op == token.LSS {
 					if c, ok := bo.Y.(*ssa.Call); ok {
 						if b, ok := c.Call.Value.(*ssa.Builtin); ok && b.Name() == "len" {
